@@ -837,3 +837,39 @@ func factCases(facts []Fact) [][]Fact {
 	}
 	return split(facts, map[*ssa.Phi]bool{}, 0)
 }
+
+// copyOrigins: the local variables whose value the local a holds at a point where facts hold:
+// a itself, or — when a is stored exactly once and every value that store can carry on the
+// paths reaching the point is a load of another local — those locals (a struct returned by
+// value from an expanded helper is such a copy).
+func copyOrigins(a *ssa.Alloc, facts []Fact) []*ssa.Alloc {
+	seen := map[*ssa.Alloc]bool{}
+	var walk func(x *ssa.Alloc, depth int) []*ssa.Alloc
+	walk = func(x *ssa.Alloc, depth int) []*ssa.Alloc {
+		if seen[x] || depth > 3 {
+			return []*ssa.Alloc{x}
+		}
+		seen[x] = true
+		sv := singleStore(x)
+		if sv == nil {
+			return []*ssa.Alloc{x}
+		}
+		var out []*ssa.Alloc
+		for _, alt := range alternatives(sv, facts) {
+			ld, ok := strip(alt).(*ssa.UnOp)
+			if !ok || ld.Op != token.MUL {
+				return []*ssa.Alloc{x}
+			}
+			src, ok := ld.X.(*ssa.Alloc)
+			if !ok {
+				return []*ssa.Alloc{x}
+			}
+			out = append(out, walk(src, depth+1)...)
+		}
+		if len(out) == 0 {
+			return []*ssa.Alloc{x}
+		}
+		return out
+	}
+	return walk(a, 0)
+}
